@@ -230,6 +230,34 @@ CLAIMED.update({
         design_ref='DESIGN.md §6 C15'),
 })
 
+CLAIMED.update({
+    'C13': dict(
+        text='Lean 4 model of the discrete core of the COLMAP converter: pair-id arithmetic GENERATED from database.py on every run, '
+             'image-id assignment from names, match column swap on export and its undo on import, the camera model table, points '
+             'and tracks under id renumbering, world pose of (nested) rig-mounted cameras on the C05/C06 algebra; 21 theorems incl. '
+             'pairId_roundtrip (ofPairId (toPairId a b) = (min a b, max a b) for all valid ids), pairId_injective, '
+             'match_loop_any_ids, points_tracks_loop, nested_rig_camera_world_pose. Tied by full export_colmap -> import_colmap '
+             'loops on generated in-range datasets compared with the model at the database, text-file and re-imported-dataset '
+             'levels, plus an implementation-only oracle by image name.',
+        note=COMMON_NOTE + 'PARTIAL: SQLite, text writers/readers, numpy blobs, float printing/parsing and the csv loader are '
+             'exercised by the loops only; datasets without a trajectories part are judged by the oracle only.',
+        technique='Lean 4 proof on generated pair-id arithmetic and the converter\'s indexing core + full export-import loop correspondence',
+        design_ref='DESIGN.md §6 C13'),
+    'C14': dict(
+        text='Lean 4 model of the OpenMVG converter core on the C05 pose algebra: export centre = inverse(pose).t, import t = -R c, '
+             'intrinsics mapping both ways and both layouts, dense id assignment, image-name decomposition and path flattening, '
+             'region file naming, structure and matches with column swap; 25 theorems incl. centre_is_camera_centre, '
+             'pose_roundtrip_sign_scale (any non-zero multiple of the quaternion), intrinsics_roundtrip, '
+             'imported_names_collide_iff (flattening collides exactly when names differ by / versus _), regions_found, '
+             'structure_roundtrip, match_pairs_preserved. Tied by full export_openmvg -> import_openmvg -> kapture_from_dir loops '
+             '(with and without flattening, both layouts, near-180-degree and non-unit rotations) compared with the model, plus an '
+             'implementation-only oracle of the six clauses.',
+        note=COMMON_NOTE + 'PARTIAL: JSON / text / binary region formats, os.path on non-normalised names and numpy-quaternion '
+             'from_rotation_matrix are exercised by the loops only; rigs and UNKNOWN_CAMERA are not generated.',
+        technique='Lean 4 proof on the pose convention (C05 algebra), intrinsics and naming core + full export-import loop correspondence',
+        design_ref='DESIGN.md §6 C14'),
+})
+
 NOT_YET = {
 }
 
